@@ -68,6 +68,7 @@ class Recorder:
         self.diverged = None
         self.foreign = []
         self._saved = {}
+        self.paused = False
 
     # -- wrappers --------------------------------------------------------------------------
     def _next(self, name, args, n):
@@ -84,6 +85,8 @@ class Recorder:
 
     def _random(self, size=None):
         orig = self._saved["random"]
+        if self.paused:
+            return orig(size)
         args = _shape_args(size)
         if self.mode == "record":
             r = orig(size)
@@ -99,6 +102,8 @@ class Recorder:
 
     def _choice(self, a, size=None, replace=True, p=None):
         orig = self._saved["choice"]
+        if self.paused:
+            return orig(a, size, replace, p)
         if not isinstance(a, (int, np.integer)) or not replace or p is not None or size is None \
                 or not isinstance(size, (int, np.integer)):
             r = orig(a, size, replace, p)
@@ -118,6 +123,8 @@ class Recorder:
 
     def _randint(self, low, high=None, size=None, dtype=int):
         orig = self._saved["randint"]
+        if self.paused:
+            return orig(low, high, size, dtype)
         if size is not None and not isinstance(size, (int, np.integer)):
             r = orig(low, high, size, dtype)
             if self.mode == "record":
@@ -142,6 +149,8 @@ class Recorder:
 
     def _permutation(self, x):
         orig = self._saved["permutation"]
+        if self.paused:
+            return orig(x)
         if not isinstance(x, (int, np.integer)):
             # permutation of an array: record the index permutation
             n = len(x)
@@ -167,6 +176,8 @@ class Recorder:
         orig = self._saved[name]
 
         def w(*a, **k):
+            if self.paused:
+                return orig(*a, **k)
             self.foreign.append((name, _caller()))
             if self.mode == "record":
                 self.log.append(Event("foreign_" + name, [-1], [], _caller()))
@@ -187,6 +198,8 @@ class Recorder:
         self._saved["py_random"] = _pyrandom.random
 
         def pyr():
+            if self.paused:
+                return self._saved["py_random"]()
             self.foreign.append(("random.random", _caller()))
             if self.mode == "record":
                 self.log.append(Event("foreign_pyrandom", [-1], [], _caller()))
